@@ -9,7 +9,7 @@ ORIG = {"orig-replay": ["C04", "C05"], "orig-tbf": ["C15"], "orig-buffer": ["C08
         "orig-bridge": ["C18"], "orig-vnetdl": ["C10"], "orig-udp": ["C12", "C11"], "orig-nat": ["C02"], "orig-assign": ["C13"]}
 def main():
     only = sys.argv[1:]
-    res_path = os.path.join(ROOT, "seeded", "RESULTS.json")
+    res_path = os.environ.get("VERIF_RESULTS", os.path.join(ROOT, "seeded", "RESULTS.json"))
     res = json.load(open(res_path)) if os.path.exists(res_path) else {}
     for name in sorted(os.listdir(os.path.join(ROOT, "seeded"))):
         d = os.path.join(ROOT, "seeded", name)
